@@ -365,7 +365,35 @@ def w_c07(seed):
     return _sequence(seq, "last result", "inputs using `ans` / `_` give the value of the most recent expression statement, one at a time or batched")
 
 
-FINDERS = {"C09": w_c09, "C18": w_c18, "C06": w_c06, "C02": lambda s: w_c06(s, want_c02=True), "C11": w_c11, "C12": w_c12, "C21": w_c21, "C20": w_c20, "C10": w_c10, "C04": w_c04, "C05": w_c05, "C17": w_c17, "C07": w_c07}
+# ---------------------------------------------------------------- C02: accepted / rejected by the type checker
+C02_CASES = [("1 m + 1 s", "TC"), ("1 m + 1 cm", "101 cm"), ("1 m < 1 s", "TC"), ("1 m -> s", "TC"), ("if true then 1 m else 1 s", "TC"), ("if 1 then 2 else 3", "TC"),
+             ("let vx_l: Length = 1 s", "TC"), ("let vx_t: Time = 2 s\nvx_t", "2 s"), ("1e-310 + 1 m", "TC"), ("0 + 1 m", "1 m"), ("2 m * 3 s", "6 m·s"), ("6 m / 3 s", "2 m/s"),
+             ("!1", "TC"), ("-true", "TC"), ("(2 m)^2", "4 m²"), ("2^(1 m)", "TC"), ("true && 1", "TC"), ("1 == true", "TC"), ("1 m == 1 s", "TC"), ("1 m == 100 cm", "true"),
+             ("(1 m)!", "TC"), ("3!", "6"), ("1 m - 1 kg", "TC"), ("1 m >= 2 kg", "TC"),
+             # generic structs: the type arguments of `Name<B, A>` are substituted for the parameters simultaneously
+             ("struct VxPair<A, B> { x: A, y: B }\nfn vx_swap<A, B>(p: VxPair<A, B>) -> VxPair<B, A> = VxPair { x: p.y, y: p.x }\nvx_swap(VxPair {x: 1 m, y: 2 s}).x + 1 s", "3 s"),
+             ("struct VxPair<A, B> { x: A, y: B }\nfn vx_swap<A, B>(p: VxPair<A, B>) -> VxPair<B, A> = VxPair { x: p.y, y: p.x }\nvx_swap(VxPair {x: 1 m, y: 2 s}).x + 1 m", "TC"),
+             ("struct VxPair<A, B> { x: A, y: B }\nfn vx_id<A, B>(p: VxPair<A, B>) -> VxPair<A, B> = p\nvx_id(VxPair {x: 1 m, y: 2 s}).y + 1 s", "3 s")]
+
+
+def w_c02(seed):
+    r = w_c06(seed, want_c02=True)
+    if r.get("found"):
+        return r
+    for prog, want in C02_CASES:          # one fresh session per case (definitions must not leak between cases)
+        got, raw = session([prog])
+        res = got.get(0, [])
+        if want == "TC":
+            if not any(k == "ERR" and v.startswith("TypeCheckError") for k, v in res):
+                return {"found": True, "kind": "session", "what": f"`{prog}` requires quantities / values of different type to be equal and must be rejected by the type checker, but: {res[:2]}", "input": prog, "output": str(res)[:400], "cmd": f"{BIN} session", "stdin": prog}
+        else:
+            vals = [v.strip() for k, v in res if k == "OK"]
+            if want not in vals:
+                return {"found": True, "kind": "session", "what": f"`{prog}` is dimensionally consistent and must evaluate to {want}, but: {res[:2]}", "input": prog, "output": str(res)[:400], "cmd": f"{BIN} session", "stdin": prog}
+    return {"found": False, "note": f"{len(C02_CASES)} inputs are accepted / rejected as dimensional analysis prescribes; " + r.get("note", "")}
+
+
+FINDERS = {"C09": w_c09, "C18": w_c18, "C06": w_c06, "C02": w_c02, "C11": w_c11, "C12": w_c12, "C21": w_c21, "C20": w_c20, "C10": w_c10, "C04": w_c04, "C05": w_c05, "C17": w_c17, "C07": w_c07}
 
 
 def find(prop, obligation, tier):
